@@ -110,7 +110,32 @@ Definition isequal_arr (nd : bool) (s d s' d' : list Z) : out :=
        | o => o
        end.
 
-Definition close (eps a b : Z) : bool := Z.abs (a - b) <? eps.
+(* ---------- floating elements (isclose) ----------
+   An element is a finite value (an integer on the common scale of values and eps), an infinity or a NaN.  isclose
+   computes fabs(t - u) < eps in IEEE arithmetic (isclose.hpp:262-268, NMTOOLS_ISCLOSE_NAN_HANDLING and
+   NMTOOLS_ISCLOSE_INF_HANDLING are 0 by default): the difference is NaN when an operand is NaN or both are the same
+   infinity, infinite when exactly one operand is infinite or the infinities differ, and an ordered comparison with NaN
+   is false — so the result is false unless both operands are finite.  -0.0 is the value 0; a denormal is the value 0 on
+   the wire's quarter grid; +-DBL_MAX / +-FLT_MAX are finite values whose differences may overflow (to an infinity, i.e.
+   not below eps — as their exact difference). *)
+Inductive fval := Fin (z : Z) | PInf | NInf | NaN.
+Definition fclose (eps : Z) (a b : fval) : bool :=
+  match a, b with
+  | Fin x, Fin y => Z.abs (x - y) <? eps
+  | _, _ => false
+  end.
+(* the value universe stores elements as integers: reserved codes stand for the non-finite and extreme values *)
+Definition c_nan : Z := 9000001.   Definition c_pinf : Z := 9000002.  Definition c_ninf : Z := 9000003.
+Definition c_nzero : Z := 9000004. Definition c_denorm : Z := 9000005.
+Definition c_max : Z := 9000006.   Definition c_nmax : Z := 9000007.  Definition c_fmax : Z := 9000008.  Definition c_nfmax : Z := 9000009.
+Definition decode (z : Z) : fval :=
+  if z =? c_nan then NaN else if z =? c_pinf then PInf else if z =? c_ninf then NInf
+  else if (z =? c_nzero) || (z =? c_denorm) then Fin 0
+  else if z =? c_max then Fin (2 ^ 1030) else if z =? c_nmax then Fin (- 2 ^ 1030)
+  else if z =? c_fmax then Fin (2 ^ 130) else if z =? c_nfmax then Fin (- 2 ^ 130)
+  else Fin z.
+Definition finitez (z : Z) : bool := match decode z with Fin _ => true | _ => false end.
+Definition close (eps a b : Z) : bool := fclose eps (decode a) (decode b).
 
 (* after the fix "isclose returns false for ndarrays of different dimension or shape": the shape test is a
    run-time comparison through detail::isequal (index-array branch), no assert is left; [nd] is kept so that
@@ -379,4 +404,15 @@ Definition apply_mm (cmp : val -> val -> out) (x y : option val) : out :=
   | Some a, Some b => cmp a b
   | None, None => Ret true
   | _, _ => Ret false
+  end.
+
+(* every element of a value satisfies p *)
+Fixpoint allelems (p : Z -> bool) (v : val) : bool :=
+  match v with
+  | Num z => p z
+  | Idx _ l => forallb p l
+  | Arr _ d => forallb p d
+  | MNone => true
+  | MSome a | ELeft a | ERight a => allelems p a
+  | Tuple l => forallb (allelems p) l
   end.
